@@ -275,6 +275,110 @@ def run_unsupported_operator(chk, rnd, spec, rows, stats):
     return [h.coq()], [replay]
 
 
+DWF_HANDLERS = {
+    # what an extension would register with env.add_dynamic_walker_function for its node type
+    "Simplifier": lambda self, formula, args, **kw: self.manager.create_node(node_type=formula.node_type(), args=tuple(args)),
+    "MGSubstituter": lambda self, formula, args, **kw: self.mgr.create_node(node_type=formula.node_type(), args=tuple(args)),
+    "FreeVarsOracle": lambda self, formula, args, **kw: frozenset(x for a in args for x in a),
+    "QuantifierOracle": lambda self, formula, args, **kw: all(args),
+    "TypesOracle": lambda self, formula, args, **kw: frozenset(x for a in args for x in a),
+    "TheoryOracle": lambda self, formula, args, **kw: args[0].copy(),
+    "AtomsOracle": lambda self, formula, args=None, **kw: frozenset([formula]),
+    "SizeOracle": lambda self, formula, args, **kw: 1 + sum(args),
+}
+
+
+def run_register_after_failure(chk, rnd, spec, rows, stats):
+    """fail -> REGISTER -> retry: a call on a long-lived walker fails with UnsupportedOperatorError
+    on a custom node type, then the handler is registered through the documented extension API
+    (env.add_dynamic_walker_function), then the call is made again.  The twin registers the
+    same handler but never made the failing call.  (Class: anything a failing call leaves on the
+    walker that outlives a later, legitimate change of the environment.)"""
+    from pysmt.environment import Environment
+    from pysmt.typing import BOOL
+    NT = custom_node_type()
+    name, kind = spec[0], spec[2]
+    envs = []
+    for _ in range(2):
+        env = Environment()
+        env.add_dynamic_walker_function(NT, type(env.stc), lambda self, formula, args, **kw: BOOL)
+        nodes = walkgen.build(env, rows)
+        g = walkgen.last_of_sort(env, nodes)
+        m = env.formula_manager
+        cn = m.create_node(node_type=NT, args=(nodes[0],))
+        cn2 = m.create_node(node_type=NT, args=(nodes[1],))
+        top = m.And(g, m.Or(nodes[1], cn))
+        other = m.Or(m.Not(cn2), nodes[2])
+        envs.append((env, nodes, g, cn, top, other))
+    (env, nodes, g, cn, top, other), (twin, tnodes, tg, tcn, ttop, tother) = envs
+    h = History(spec, env, twin)
+    h.register([top, other, cn, g])
+    first, _ = h.do(top, ttop, twin_too=False, label="failing call (no handler registered yet)")
+    stats["failing_calls"] += 1
+    if first[0] != "raise":
+        stats["fault_not_reached"] += 1
+        return [], []
+    for e in (env, twin):
+        e.add_dynamic_walker_function(NT, type(spec[1](e)), DWF_HANDLERS[name])
+    replay = {"walker": name, "recipe": rows, "history": ["%s(And(g, Or(p1, <custom node>))) raises %s" % (name, first[1]),
+                                                          "env.add_dynamic_walker_function(<custom type>, %s, handler)" % name,
+                                                          "%s(And(g, Or(p1, <custom node>))) again" % name],
+              "repro": "harness.c15.replay_register(%r, %r)" % (name, rows)}
+    h.do(top, ttop, label="the failing call again, after the handler was registered")
+    rows_out = [] if kind == "size" else [h.coq()]      # the model sees: call 1 raises at the custom node, call 2 does not
+    # further calls (twin comparison only: the resolved handler replaces the tapped table entry)
+    for lbl, f, tf in (("another formula with the custom type", other, tother), ("the custom node alone", cn, tcn), ("a formula without it", g, tg)):
+        a = canon_outcome(outcome(lambda: spec[5](env, h.w, f, None)))
+        b = canon_outcome(outcome(lambda: spec[5](twin, h.tw, tf, None)))
+        stats["probe_calls"] += 1
+        if a != b:
+            h.diffs.append({"call": lbl, "after_failure": list(a), "fresh_twin": list(b)})
+    chk.count((name, "register-after-failure", tuple(map(str, rows[-3:]))))
+    if h.diffs:
+        stats["histories_with_trace"] += 1
+        chk.violation(dict(replay, kind="history", what="%s failed on a custom node type, the handler was registered afterwards, and later calls still differ "
+                           "from a twin environment that registered the same handler without the failing call" % name, differences=h.diffs[:4]),
+                      key="register-after-failure:%s" % name)
+    return rows_out, [replay] if rows_out else []
+
+
+def run_register_type_checker(chk, stats):
+    """The same three steps on the type checker (through FormulaManager.create_node)."""
+    from pysmt.environment import Environment
+    from pysmt.typing import BOOL
+    NT = custom_node_type()
+    env, twin = Environment(), Environment()
+    out = []
+    for e, fail_first in ((env, True), (twin, False)):
+        m = e.formula_manager
+        b = m.Symbol("b", BOOL)
+        first = outcome(lambda: m.create_node(node_type=NT, args=(b,))) if fail_first else None
+        e.add_dynamic_walker_function(NT, type(e.stc), lambda self, formula, args, **kw: BOOL)
+        second = outcome(lambda: m.create_node(node_type=NT, args=(b,)))
+        third = outcome(lambda: m.And(b, m.create_node(node_type=NT, args=(m.Not(b),))))
+        out.append((first, canon_outcome(second), canon_outcome(third)))
+    stats["failing_calls"] += 1
+    stats["probe_calls"] += 2
+    chk.count(("register-after-failure", "SimpleTypeChecker"))
+    if out[0][0][0] != "raise" or out[0][1:] != out[1][1:]:
+        chk.violation({"kind": "history", "what": "create_node with a custom node type failed, the type-checker handler was registered afterwards, and the "
+                       "same construction still differs from a twin that never made the failing attempt",
+                       "history": ["create_node(<custom>, (b,)) -> %s" % (out[0][0],), "add_dynamic_walker_function(<custom>, SimpleTypeChecker, h)",
+                                   "create_node(<custom>, (b,)) -> %s" % (out[0][1],)], "fresh_twin": [list(x) for x in out[1][1:]],
+                       "repro": "harness.c15.replay_register('SimpleTypeChecker', [])"}, key="register-after-failure:SimpleTypeChecker")
+
+
+def replay_register(name, rows):
+    warnings.simplefilter("ignore")
+    c = _Chk()
+    if name == "SimpleTypeChecker":
+        run_register_type_checker(c, _stats())
+    else:
+        spec = [s for s in _specs() if s[0] == name][0]
+        run_register_after_failure(c, random.Random(0), spec, rows, _stats())
+    return 1 if c.v else 0
+
+
 def run_ill_typed_substitution(chk, rnd, rows, stats):
     from pysmt.environment import Environment
     spec = [s for s in _specs() if s[0] == "MGSubstituter"][0]
@@ -554,12 +658,16 @@ def run(tier):
             r, m = run_unsupported_operator(chk, rnd, spec, rows, stats)
             rows_out += r
             meta += m
+            r, m = run_register_after_failure(chk, rnd, spec, rows, stats)
+            rows_out += r
+            meta += m
         for _ in range(3):
             r, m = run_ill_typed_substitution(chk, rnd, rows, stats)
             rows_out += r
             meta += m
         run_ill_typed_construction(chk, rnd, rows, stats)
     run_parser(chk, rnd, stats)
+    run_register_type_checker(chk, stats)
     chk.note("failing calls %(failing_calls)d, probe calls %(probe_calls)d, histories with a trace %(histories_with_trace)d" % stats)
 
     lib.clean_cases(chk.dir)
@@ -588,6 +696,7 @@ def run(tier):
     chk.cov["corpus"] = CORPUS
     chk.cov["faults"] = ["callback raising at every key of the traversal (injected)", "unsupported operator (custom node type)",
                          "ill-typed substitution",
+                         "fail -> register the handler (env.add_dynamic_walker_function) -> retry, on each of the 8 long-lived walkers and on the type checker",
                          "rejected constructions (31 entries: pysmt type errors, typing rules raising AttributeError/AssertionError, create_node with a node type unknown to the type checker), each attempted three times",
                          "parser: " + ", ".join(l for l, _ in BAD_SCRIPTS),
                          "every failing call is attempted a second time on the same environment and must fail as the first time and as a single attempt on a fresh environment"]
